@@ -170,8 +170,8 @@ def parse_verus_errors(stderr):
     return out
 
 
-def run_verus_file(path, rlimit, seed, timeout):
-    cmd = ['verus', path, '--rlimit', str(rlimit), '--output-json', '--time', '--multiple-errors', '4',
+def run_verus_file(path, rlimit, seed, timeout, multi=4):
+    cmd = ['verus', path, '--rlimit', str(rlimit), '--output-json', '--time', '--multiple-errors', str(multi),
            '--smt-option', 'smt.random_seed=%d' % seed]
     rc, so, se, dt = sh(cmd, cwd=os.path.dirname(path), timeout=timeout)
     js = None
@@ -269,7 +269,7 @@ def verus_unit(run, unit, seed=0, twin=True, rlimit=None, timeout=600):
             ttext, tmeta = extract.build_unit(info['text'], {info['profile']: exp}, twin=True)
             tpath = os.path.join(run.dir, unit + '_twin.rs')
             open(tpath, 'w').write(ttext)
-            rc2, js2, se2, dt2, _ = run_verus_file(tpath, min(rlimit, 30), seed, timeout)
+            rc2, js2, se2, dt2, _ = run_verus_file(tpath, 2, seed, timeout, multi=1)
             res['seconds'] += dt2
             terrs = parse_verus_errors(se2)
             rejected, accepted = [], []
@@ -280,8 +280,9 @@ def verus_unit(run, unit, seed=0, twin=True, rlimit=None, timeout=600):
                 hit = [e for e in terrs if any(l is not None and a <= l <= b for l in (e['fail_line'], e['primary_line']))]
                 (rejected if hit else accepted).append(f['path'])
             res['twin'] = {'rejected': len(rejected), 'accepted': accepted, 'seconds': round(dt2, 2)}
-            if rc2 == 124 or js2 is None:
-                res['twin']['error'] = 'twin run failed: ' + se2[-500:]
+            tool2 = [e for e in terrs if e['kind'] == 'tool']
+            if rc2 == 124 or js2 is None or tool2:
+                res['twin']['error'] = 'twin run failed: ' + (tool2[0]['text'][:300] if tool2 else se2[-500:])
         except Exception as e:  # pragma: no cover
             res['twin'] = {'rejected': 0, 'accepted': [], 'error': str(e)}
     return res
